@@ -379,10 +379,10 @@ def build_schemas(T):
         ' static_cast<C_Polyhedron&>($2));', topo={0: 2, 1: 'C', 2: 'C'}, flags=('F_TERM1',))
     # ---- input / output (domains and core types alike)
     ANY = '(' + '|'.join(sorted(T.names, key=len, reverse=True)) + ')'
-    add('io_print', r'ppl_io_print_%s' % ANY, 'V: t.sout = cif::print_str($0); t.has_sout = true;', flags=('F_IO_STDOUT',))
-    add('io_fprint', r'ppl_io_fprint_%s' % ANY, 'V: t.sout = cif::print_str($1); t.has_sout = true;', flags=('F_IO_FILE_OUT',))
-    add('io_asprint', r'ppl_io_asprint_%s' % ANY, 'V: t.sout = cif::print_str($1); t.has_sout = true;', flags=('F_IO_STR',))
-    add('ascii_dump', r'ppl_%s_ascii_dump' % ANY, 'V: t.sout = cif::dump_str($0); t.has_sout = true;', flags=('F_IO_FILE_OUT',))
+    add('io_print', r'ppl_io_print_%s' % ANY, 'V: t.sout = cif::print_str($o0); t.has_sout = true;', flags=('F_IO_STDOUT',))
+    add('io_fprint', r'ppl_io_fprint_%s' % ANY, 'V: t.sout = cif::print_str($o1); t.has_sout = true;', flags=('F_IO_FILE_OUT',))
+    add('io_asprint', r'ppl_io_asprint_%s' % ANY, 'V: t.sout = cif::print_str($o1); t.has_sout = true;', flags=('F_IO_STR',))
+    add('ascii_dump', r'ppl_%s_ascii_dump' % ANY, 'V: t.sout = cif::dump_str($o0); t.has_sout = true;', flags=('F_IO_FILE_OUT',))
     add('ascii_load', r'ppl_%s_ascii_load' % ANY,
         'R: { std::istringstream is(t.sin); t.ret = $0.ascii_load(is) ? 0 : PPL_STDIO_ERROR; }', flags=('F_IO_FILE_IN',))
     # ---- core: value types
